@@ -43,12 +43,15 @@ type World struct {
 	EagerFetch bool           // blocks held by a linked live peer are fetched without a kernel step
 	FailWant   map[string]int // cid string -> how many of the next wants for it fail with an error
 	DiskFault  func(n *Node, kind, space, key string) error
-	OnPublish  func(src int, topic string, data []byte)
-	OnEffect   func(e *Effect)
-	parks      []*Park
-	soft       []*Park // goroutines stalled by the kernel at a point right before a mutex acquisition
-	parkSeq    int
-	streams    []*SimStream
+	// StreamCloseErrNext: that many of the next streams opened report an error from the
+	// writer's Close although all their bytes are delivered
+	StreamCloseErrNext int
+	OnPublish          func(src int, topic string, data []byte)
+	OnEffect           func(e *Effect)
+	parks              []*Park
+	soft               []*Park // goroutines stalled by the kernel at a point right before a mutex acquisition
+	parkSeq            int
+	streams            []*SimStream
 }
 
 func NewWorld() *World {
